@@ -357,7 +357,10 @@ class DFree(WeightingModel):
     """
 
     def supports_block_quality(self):
-        return True
+        # The DFree formula is not monotone in weight and length (e.g. it is 0
+        # when the term makes up the whole field), so the score of the maximum
+        # weight at the minimum length is not an upper bound for a block
+        return False
 
     def scorer(self, searcher, fieldname, text, qf=1):
         if not searcher.schema[fieldname].scorable:
@@ -376,6 +379,9 @@ class DFreeScorer(WeightLengthScorer):
 
         self.qf = qf
         self.setup(searcher, fieldname, text)
+
+    def supports_block_quality(self):
+        return False
 
     def _score(self, weight, length):
         return dfree(weight, self.cf, self.qf, length, self.fl)
